@@ -107,14 +107,31 @@ def version_sensitive_pairs(min_version=6):
     return out
 
 
-def version_pair_messages(rng, pair, compressed=False):
+def pair_ids(e, form):
+    """descriptor lists in which the table-dependent element e is used plainly / through a marker operator /
+    under an associated field / as the owner of difference statistics"""
+    if form == 'marker':
+        return [e, 12001, 223000, 101002, 31031, 101000, 31001, 223255]
+    if form == 'first-order':
+        return [12001, e, 224000, 101002, 31031, 8023, 101000, 31001, 224255]
+    if form == 'assoc':
+        return [204005, 31021, e, 12001, 204000, e]
+    return [1001, e, 12001, e]
+
+
+class _ZeroBits(R.Policy):
+    def bitmap_bit(self, pw):
+        return 0
+
+
+def version_pair_messages(rng, pair, compressed=False, form='plain'):
     """two messages with identical descriptor lists under the two versions of `pair`."""
     e, a, b = pair
-    ids = [1001, e, 12001, e]
+    ids = pair_ids(e, form)
     out = []
     for v in (a, b):
         B, D = tables(v)
-        out.append(R.build_message(ids, B, D, R.Policy(rng), 2 if compressed else 1, compressed, 4,
+        out.append(R.build_message(ids, B, D, _ZeroBits(rng), 2 if compressed else 1, compressed, 4,
                                    dict(master_table_version=v)))
     return ids, out
 
@@ -140,14 +157,14 @@ def local_sensitive_pairs():
     return out
 
 
-def local_pair_messages(rng, pair, compressed=False, mtv=33):
+def local_pair_messages(rng, pair, compressed=False, mtv=33, form='plain'):
     """two messages with identical descriptor lists and master version under two local table versions"""
     e, la, lb = pair
-    ids = [1001, e, 12001, e]
+    ids = pair_ids(e, form)
     out = []
     for ce, su, lv in (la, lb):
         B, D = R.load_tables(0, ce, su, mtv, lv)
-        out.append(R.build_message(ids, B, D, R.Policy(rng), 2 if compressed else 1, compressed, 4,
+        out.append(R.build_message(ids, B, D, _ZeroBits(rng), 2 if compressed else 1, compressed, 4,
                                    dict(master_table_version=mtv, originating_centre=ce, originating_subcentre=su,
                                         local_table_version=lv)))
     return ids, out
